@@ -518,7 +518,38 @@ def cases(rng: random.Random, tier: str):
     return [_assign(c) for c in _cases(rng, tier)]
 
 
+def _small_scope(tier):
+    """SMALL-SCOPE EXHAUSTIVE stream (session 4): every labelled ADMG on 1-3 nodes (207) through the round trip and
+    through evans_simplify with EVERY subset of its nodes declared latent (1642 cases); every labelled DAG on 1-3 nodes
+    (thorough: 1-4 nodes, 543 more DAGs) with EVERY latent tagging through simplify_latent_dag (228 / 8916 cases)."""
+    import itertools as itt
+    out = []
+    for n in (1, 2, 3):
+        for g in G.all_labelled_admgs(n):
+            gg = {"nodes": [nm(v) for v in g["nodes"]], "di": [[nm(u), nm(v)] for u, v in g["di"]],
+                  "bi": [[nm(u), nm(v)] for u, v in g["bi"]]}
+            out.append({"op": "roundtrip", "g": gg, "label": "smallscope"})
+            for r in range(n + 1):
+                for extra in itt.combinations(range(n), r):
+                    out.append({"op": "evans", "g": json.loads(json.dumps(gg)), "extra": [nm(v) for v in extra],
+                                "label": "smallscope"})
+    for n in (1, 2, 3, 4) if tier == "thorough" else (1, 2, 3):
+        for g in G.all_labelled_admgs(n):
+            if g["bi"]:
+                continue
+            for r in range(n + 1):
+                for lat in itt.combinations(range(n), r):
+                    out.append({"op": "simplify", "label": "smallscope",
+                                "d": {"nodes": [nm(v) for v in g["nodes"]], "edges": [[nm(u), nm(v)] for u, v in g["di"]],
+                                      "latent": [nm(v) for v in lat], "untagged": []}})
+    return out
+
+
 def _cases(rng: random.Random, tier: str):
+    return _cases0(rng, tier) + _small_scope(tier)
+
+
+def _cases0(rng: random.Random, tier: str):
     out = [json.loads(json.dumps(c)) for c in CORPUS] + _corpus_files()
     k = 8 if tier == "quick" else 60
     for _ in range(260 * k):
